@@ -38,7 +38,7 @@ def run(chk: Check) -> None:
                 if any(a in ("IntOp.DIV", "IntOp.MOD") for a in argtxt):
                     sites.append((f, n, [a for a in argtxt if a in ("IntOp.DIV", "IntOp.MOD")][0]))
                 elif "op" in argtxt:
-                    texts = [norm(c) for c in guard_chain(f, n)[0]]
+                    texts = [norm(c) for c in guard_chain(f, n, early_exits=True)[0]]
                     hit = [t for t in texts if t in ("op == IntOp.DIV", "op == IntOp.MOD")]
                     if hit:
                         sites.append((f, n, hit[0].split("== ")[1]))
@@ -46,7 +46,7 @@ def run(chk: Check) -> None:
         raise AnalysisError(f"only {len(sites)} IntOp.DIV/MOD emission sites found")
     inline_helpers = {"inline_fixed_width_divide", "inline_fixed_width_mod"}
     for f, n, which in sites:
-        texts = [norm(c) for c in guard_chain(f, n)[0]]
+        texts = [norm(c) for c in guard_chain(f, n, early_exits=True)[0]]
         key = f"{f.qualname}: {norm(n)[:60]} ({which})"
         const_guard = "isinstance(rhs, Integer)" in texts and "rhs.value not in (-1, 0)" in texts
         g = CFG(f.node)
@@ -66,7 +66,7 @@ def run(chk: Check) -> None:
                     continue
                 for c in ast.walk(f2.node):
                     if isinstance(c, ast.Call) and call_name(c) == f.name:
-                        t2 = [norm(x) for x in guard_chain(f2, c)[0]]
+                        t2 = [norm(x) for x in guard_chain(f2, c, early_exits=True)[0]]
                         if not ("isinstance(rhs, Integer)" in t2 and "rhs.value not in (-1, 0)" in t2):
                             bad.append(f2.loc(c))
             if bad:
@@ -83,8 +83,15 @@ def run(chk: Check) -> None:
     cmps = [norm(c.args[2]) for c in ast.walk(cfr.node) if isinstance(c, ast.Call) and call_name(c) == "ComparisonOp" and len(c.args) >= 3]
     branches = [c for c in ast.walk(cfr.node) if isinstance(c, ast.Call) and call_name(c) == "Branch"]
     both = "ComparisonOp.SLT" in cmps and "ComparisonOp.SGE" in cmps and len(branches) >= 2 and all(len(b.args) >= 3 and norm(b.args[2]) == "overflow_block" for b in branches)
-    src_ = norm(cfr.node)
-    bounds_ok = "upper_bound = 1 << size * 8 - 1" in src_ and "if not target_type.is_signed: upper_bound *= 2" in src_.replace("\n", " ") or ("upper_bound *= 2" in src_ and "lower_bound = -upper_bound" in src_ and "lower_bound = 0" in src_)
+    from ..pattern import find_all
+    bounds_ok = bool(find_all(cfr.node, [
+        "$u = 1 << ($_ * 8 - 1)",
+        "if not target_type.is_signed:\n    $u *= 2",
+        "$l = -$u",
+        "$l = 0",
+        "ComparisonOp($_, Integer($u, $_), ComparisonOp.SLT, $_)",
+        "ComparisonOp($_, Integer($l, $_), ComparisonOp.SGE, $_)",
+    ]))
     if both and bounds_ok:
         r2.ok("check_fixed_width_range branches to overflow on value >= upper and on value < lower, bounds from size/is_signed", cfr.loc())
     else:
